@@ -467,6 +467,7 @@ pub fn run(ctx: &Ctx) {
                 break;
             }
             let mode = [Mode::PassThrough, Mode::DistHeader, Mode::Fragments][h % 3];
+            ctx.beat(&format!("history/{}", h));
             let own_flags = DistributionFlags::default().as_u64() | match mode {
                 Mode::PassThrough => 0,
                 Mode::DistHeader => FLAG_DIST_HDR_ATOM_CACHE,
